@@ -119,63 +119,6 @@ Proof.
   - unfold alloc_closure, alloc_cell. cbn [snd s_nclo]. lia.
 Qed.
 
-(* `local function V<fv>` for a function that is not callable (start): the world stays *)
-Lemma rel_define_start fl W sc e st E stL ps body b :
-  rel pv sv bound u fl W sc e st E stL -> ~ In sv sc -> sv <> pv -> sv < bound -> ~ In sv (fnames fl) ->
-  rel pv sv bound u fl W sc (def_env sv e st) (def_state sv ps body e st)
-      (sset (fmt_var sv) (s_ncell stL) E) (lua_def_state stL (sset (fmt_var sv) (s_ncell stL) E) ps b).
-Proof.
-  intros [Hv Hb Hi Hp Hpb HpE HpG Hwf Ht Hli HW] Hnin Hnpv Hsvb Hnfl.
-  unfold def_env, def_state. constructor.
-  - intros w Hw. destruct (Hv w Hw) as (cc & x & p & H1 & H2 & H3 & H4).
-    assert (Hne : w <> sv) by (intros ->; contradiction).
-    exists cc, x, p. cbn [SyltSem.lookup SyltSem.cells]. destruct (N.eqb_spec sv w); [congruence|].
-    splits; [exact H1 | apply nth_error_app_old; exact H2 | rewrite sget_sset_var by exact Hne; exact H3 |].
-    rewrite lua_def_old; [exact H4 | eapply wf_alloc; eassumption].
-  - exact Hb.
-  - intros v1 v2 cc H1 H2. cbn [SyltSem.lookup].
-    destruct (N.eqb_spec sv v1) as [->|]; [contradiction|]. destruct (N.eqb_spec sv v2) as [->|]; [contradiction|].
-    apply Hi; assumption.
-  - destruct Hp as (cp & Hlkp & Hnthp & Hdist).
-    exists cp. cbn [SyltSem.lookup SyltSem.cells]. destruct (N.eqb_spec sv pv); [congruence|].
-    splits; [exact Hlkp | apply nth_error_app_old; exact Hnthp |].
-    intros w Hw. destruct (N.eqb_spec sv w) as [->|]; [contradiction|]. apply Hdist. exact Hw.
-  - exact Hpb.
-  - rewrite sget_sset_var by (intros Heq; apply Hnpv; symmetry; exact Heq). exact HpE.
-  - eapply glob_frame; [|exact HpG]. reflexivity.
-  - pose proof (wfenv_local E stL sv VNil Hwf) as [HV Hin Ha]. constructor; [exact HV | exact Hin |].
-    intros x p H. specialize (Ha x p H). cbn in *. exact Ha.
-  - exact Ht.
-  - apply linv_lua_def. exact Hli.
-  - assert (Hw1 : winv pv sv bound u fl W sc e (def_state sv ps body e st) E (lua_def_state stL (sset (fmt_var sv) (s_ncell stL) E) ps b)).
-    { apply (winv_states_gen pv sv bound u fl W sc e st E stL _ _ HW).
-      - intros c x Hx. cbn [def_state SyltSem.cells]. pose proof (wi_IS _ _ _ _ _ _ _ _ _ _ _ HW c x Hx).
-        rewrite nth_error_app1; [reflexivity | apply nth_error_Some; congruence].
-      - intros ci Hci. cbn [def_state SyltSem.clos]. rewrite nth_error_app1; [reflexivity | exact Hci].
-      - cbn [def_state SyltSem.clos]. rewrite app_length. lia.
-      - intros p lv Hq. apply lua_def_old. apply (wi_IL _ _ _ _ _ _ _ _ _ _ _ HW p lv Hq).
-      - unfold lua_def_state, set_cell, alloc_closure, alloc_cell. cbn [snd s_ncell]. lia.
-      - intros fid Hfid. unfold lua_def_state, set_cell, alloc_closure, alloc_cell. cbn [snd s_clos s_nclo]. rewrite pget_pset_other; [reflexivity | lia].
-      - unfold lua_def_state, set_cell, alloc_closure, alloc_cell. cbn [snd s_nclo]. lia. }
-    apply (winv_env pv sv bound u fl W sc e _ E _ sc _ _ Hw1).
-    + intros v c x Hvin Hlk. cbn [SyltSem.lookup] in Hlk. destruct (N.eqb_spec sv v) as [->|]; [contradiction|].
-      apply (wi_scS _ _ _ _ _ _ _ _ _ _ _ HW v c x Hvin Hlk).
-    + apply (wi_scfl _ _ _ _ _ _ _ _ _ _ _ HW).
-    + intros v p lv Hvin Hq. rewrite sget_sset_var in Hq by (intros ->; contradiction).
-      apply (wi_lprot _ _ _ _ _ _ _ _ _ _ _ HW v p lv Hvin Hq).
-    + intros d Hd Hvis. destruct (wi_vsc _ _ _ _ _ _ _ _ _ _ _ HW d Hd Hvis) as [Hisc Hifl].
-      apply (fvisS_same pv e _ d (wi_visS _ _ _ _ _ _ _ _ _ _ _ HW d Hd Hvis)).
-      * cbn [SyltSem.lookup]. destruct (N.eqb_spec sv (fd_var d)) as [Heq|]; [|reflexivity]. exfalso. apply Hnfl. rewrite Heq. exact Hvis.
-      * intros g Hg. cbn [SyltSem.lookup]. destruct (N.eqb_spec sv g) as [Heq|]; [|reflexivity]. exfalso. subst g.
-        destruct Hg as [[Hg|Hg]|Hg]; [apply Hnin, Hisc, Hg | apply Hnfl; unfold fnames in *; apply (incl_map fst Hifl); exact Hg | apply Hnpv; exact Hg].
-    + intros d Hd Hvis. destruct (wi_vsc _ _ _ _ _ _ _ _ _ _ _ HW d Hd Hvis) as [Hisc Hifl].
-      apply (fvisL_same E _ d (wi_visL _ _ _ _ _ _ _ _ _ _ _ HW d Hd Hvis)).
-      * apply sget_sset_var. intros Heq. apply Hnfl. rewrite <- Heq. exact Hvis.
-      * intros g [Hg|Hg]; apply sget_sset_var; intros Heq; subst g;
-          [apply Hnin, Hisc, Hg | apply Hnfl; unfold fnames in *; apply (incl_map fst Hifl); exact Hg].
-    + apply (wi_vsc _ _ _ _ _ _ _ _ _ _ _ HW).
-Qed.
-
 (* `local function V<fv>(ps) <body> end` for a top-level function: it joins the callable functions and the
    world; the description d records its code, its cells and its closure environments *)
 Lemma rel_define_function fl W sc e st E stL fv ps body g k scout bc c c2 l :
@@ -401,28 +344,6 @@ Proof.
   - rewrite frag_stmt_sexpr in H. destruct (frag_expr pv sv bound fl k sc value); inversion H; auto.
 Qed.
 
-Lemma fresh_not_sv fl sc v : fresh_id pv sv bound fl sc v = true -> v <> sv.
-Proof. intros H. destruct (fresh_id_inv _ _ _ _ _ _ H) as (_ & _ & A & _). exact A. Qed.
-
-Lemma frag_items_fresh k : forall items sc fl scf flf,
-  frag_items pv sv bound k sc fl items = Some (scf, flf) ->
-  (forall v, In v scf -> In v sc \/ v <> sv) /\ (forall f, In f (fnames flf) -> In f (fnames fl) \/ f <> sv).
-Proof.
-  induction items as [|s items IH]; intros sc fl scf flf H.
-  - cbn in H. inversion H; subst. split; intros; left; assumption.
-  - cbn [frag_items] in H. destruct s; try discriminate H. destruct value.
-    all: try (destruct (frag_stmt pv sv bound fl k sc _) as [sc1|] eqn:Hs; [|discriminate H];
-              destruct (IH _ _ _ _ H) as [A B]; split; [|exact B];
-              intros v Hv; destruct (A v Hv) as [Hin|Hne]; [|right; exact Hne];
-              destruct (frag_stmt_scope _ _ _ _ _ Hs) as [->|(var' & -> & Hf)]; [left; exact Hin|];
-              destruct Hin as [<-|Hin]; [right; eapply fresh_not_sv; exact Hf | left; exact Hin]).
-    (* a function *)
-    match type of H with (if ?b then _ else _) = _ => destruct b eqn:Hc; [|discriminate H] end.
-    apply andb_prop in Hc as [Hc _]. apply andb_prop in Hc as [Hfr _].
-    destruct (IH _ _ _ _ H) as [A B]. split; [exact A|].
-    intros f Hf. destruct (B f Hf) as [[<-|Hin]|Hne]; [right; eapply fresh_not_sv; exact Hfr | left; exact Hin | right; exact Hne].
-Qed.
-
 (* the structure of the emitted outer statements *)
 Lemma L_items n k : forall items c cs c' sc fl scf flf l,
   mapM (compile_stmt (S n)) items c = Ok (cs, c') ->
@@ -593,26 +514,40 @@ Proof.
   match type of H with (if ?b then _ else _) = _ => destruct b; [|discriminate H] end. eapply IH; exact H.
 Qed.
 
+(* the names of the functions are user variables *)
+Lemma frag_items_bound pv sv bound k : forall items fl0 sc0 scg flg,
+  frag_items pv sv bound k sc0 fl0 items = Some (scg, flg) ->
+  (forall f ar, In (f, ar) fl0 -> f < bound) -> forall f ar, In (f, ar) flg -> f < bound.
+Proof.
+  induction items as [|it items IH]; intros fl0 sc0 scg flg H Hfl f ar Hin.
+  - cbn in H. inversion H; subst. eapply Hfl; exact Hin.
+  - cbn [frag_items] in H. destruct it; try discriminate H. destruct value;
+      try (match type of H with context [frag_stmt pv sv bound fl0 k sc0 ?s0] =>
+             destruct (frag_stmt pv sv bound fl0 k sc0 s0) as [sc1|]; [eapply IH; eassumption | discriminate H] end).
+    match type of H with (if ?b then _ else _) = _ => destruct b eqn:Hc; [|discriminate H] end.
+    apply andb_prop in Hc as [Hc _]. apply andb_prop in Hc as [Hfr _].
+    eapply IH; [exact H | | exact Hin]. intros f0 ar0 [Heq|Hin0]; [|eapply Hfl; exact Hin0].
+    inversion Heq; subst. destruct (fresh_id_inv _ _ _ _ _ _ Hfr) as (_ & _ & _ & A). exact A.
+Qed.
+
 Lemma frag_inv k r :
   frag k r = true ->
-  exists name pv kd t sp gs nm sv kd' t' fname ret body pure fsp dsp scg flg sc',
-    r_stmts r = SExternalDefinition name pv kd t sp :: gs ++ [SDefinition nm sv kd' t' (EFunction fname [] ret body pure fsp) dsp] /\
-    name = "print"%string /\ IR.find_start (Resolved.r_vars r) = Some sv /\ pv <> sv /\
-    pv < N.of_nat (length (Resolved.r_vars r)) + 1 /\ sv < N.of_nat (length (Resolved.r_vars r)) + 1 /\
-    frag_items pv sv (N.of_nat (length (Resolved.r_vars r)) + 1) k [] [] gs = Some (scg, flg) /\
-    frag_stmts pv sv (N.of_nat (length (Resolved.r_vars r)) + 1) flg k scg body = Some sc'.
+  exists name pv kd t sp items s scg flg,
+    r_stmts r = SExternalDefinition name pv kd t sp :: items /\
+    name = "print"%string /\ IR.find_start (Resolved.r_vars r) = Some s /\
+    pv < N.of_nat (length (Resolved.r_vars r)) + 1 /\
+    frag_items pv (N.of_nat (length (Resolved.r_vars r)) + 1) (N.of_nat (length (Resolved.r_vars r)) + 1) k [] [] items = Some (scg, flg) /\
+    fun_arity flg s = Some O.
 Proof.
   unfold frag. intros H.
-  destruct (r_stmts r) as [|s0 rest]; [discriminate H|]. destruct s0; try discriminate H.
-  destruct (split_last rest) as [[gs last]|] eqn:Hsl; [|discriminate H]. apply split_last_app in Hsl. subst rest.
-  destruct last; try discriminate H. destruct value; try discriminate H. destruct params; try discriminate H.
+  destruct (r_stmts r) as [|s0 items]; [discriminate H|]. destruct s0; try discriminate H.
   frag_split H.
-  destruct (frag_items var var0 (N.of_nat (length (Resolved.r_vars r)) + 1) k [] [] gs) as [[scg flg]|] eqn:Hg; [|discriminate].
-  destruct (frag_stmts var var0 (N.of_nat (length (Resolved.r_vars r)) + 1) flg k scg body) as [sc'|] eqn:Hb; [|discriminate].
-  apply String.eqb_eq in H. apply negb_true_iff, N.eqb_neq in Hfr2. apply N.ltb_lt in Hfr1, Hfr0.
-  change (Frag.find_start (Resolved.r_vars r)) with (IR.find_start (Resolved.r_vars r)) in Hfr3.
-  destruct (IR.find_start (Resolved.r_vars r)) as [s|] eqn:Hs; [|discriminate]. apply N.eqb_eq in Hfr3. subst s.
-  do 19 eexists. splits; try reflexivity; try eassumption.
+  change (Frag.find_start (Resolved.r_vars r)) with (IR.find_start (Resolved.r_vars r)) in Hfr.
+  destruct (IR.find_start (Resolved.r_vars r)) as [s|] eqn:Hs; [|discriminate].
+  match type of Hfr with match ?x with _ => _ end = _ => destruct x as [[scg flg]|] eqn:Hg; [|discriminate] end.
+  destruct (fun_arity flg s) as [[|ar]|] eqn:Har; try discriminate.
+  apply String.eqb_eq in H. apply N.ltb_lt in Hfr0.
+  do 9 eexists. splits; try reflexivity; try eassumption.
 Qed.
 
 (* the program's statements, run in any Lua state that satisfies the preamble invariant, has printed nothing
@@ -635,62 +570,45 @@ Lemma program_sim k r code n res st0 :
   lua_result st0 code res.
 Proof.
   intros Hlin0 Hout0 HnoV Hfrag Hlow Hrun Hgood. subst res.
-  destruct (frag_inv k r Hfrag) as (name & pv & kd & t & sp & gs & nm & sv & kd' & t' & fname & ret & body & pure & fsp & dsp & scg & flg & sc' &
-                                    Hstmts & -> & Hstart & Hne & Hpvb & Hsvb & Hfg & Hfb).
+  destruct (frag_inv k r Hfrag) as (name & pv & kd & t & sp & items & s & scg & flg & Hstmts & -> & Hstart & Hpvb & Hfg & Hars).
   set (bound := N.of_nat (length (Resolved.r_vars r)) + 1) in *.
   pose proof (frag_items_defs _ _ _ _ _ _ _ _ _ Hfg) as Hdefs.
+  apply (fun_arity_in flg) in Hars.
+  assert (Hne : items <> []) by (intros ->; cbn in Hfg; inversion Hfg; subst; destruct Hars).
   (* the lowering *)
   unfold lower in Hlow. rewrite Hstmts, Hstart in Hlow. fold bound in Hlow.
   match type of Hlow with match ?m bound with _ => _ end = _ => destruct (m bound) as [[code0 cend]| |] eqn:Hm; [|discriminate|discriminate] end.
   inversion Hlow; subst code0. clear Hlow.
   mon Hm. fresh_all.
-  apply mapM_cons_ok in Hm0 as (y0 & c1 & ys & Hy0 & Hys & ->).
-  cbn [compile_stmt] in Hy0. apply ret_ok in Hy0 as [<- <-].
-  apply mapM_app_ok in Hys as (csg & cg & cst & Hmg & Hmst & ->).
-  apply mapM_cons_ok in Hmst as (cdef & c2 & ynil & Hdef & Hnil & ->). apply mapM_nil_ok in Hnil as [-> ->].
-  cbn [compile_stmt] in Hdef.
-  destruct n as [|f]; [discriminate Hdef|].
-  rewrite definition_fun in Hdef. cbn [param_ids map] in Hdef. mon Hdef. fresh_all.
-  rename a0 into bc. rename c2 into cb. rename Hm0 into Hbody.
-  (* the reference interpreter *)
-  destruct f as [|f'].
-  { rewrite (run_fuel1 r pv sv kd t sp gs nm kd' t' fname ret body pure fsp dsp Hstmts Hstart Hdefs) in Hgood. destruct Hgood. }
-  rewrite (run_frag_eq r pv sv kd t sp gs nm kd' t' fname ret body pure fsp dsp f' Hstmts Hstart) in *.
-  set (code := concat ([IExternal pv "print"] :: csg ++ [IFunction sv [] :: bc ++ [IEnd]]) ++ [ICall cb sv []]).
-  assert (Hcodeq : code = IExternal pv "print" :: concat csg ++ (IFunction sv [] :: bc ++ [IEnd]) ++ [ICall cb sv []]).
-  { unfold code. cbn [concat app]. rewrite concat_app. cbn [concat]. rewrite app_nil_r, <- app_assoc. reflexivity. }
+  apply mapM_cons_ok in Hm0 as (y0 & c1 & csg & Hy0 & Hmg & ->).
+  cbn [compile_stmt] in Hy0. apply ret_ok in Hy0 as [<- <-]. rename c into cg.
+  (* the fuel *)
+  destruct n as [|[|f']].
+  { exfalso. destruct items as [|it items']; [contradiction|]. apply mapM_cons_ok in Hmg as (y & c2 & ys & Hy & _ & _).
+    cbn [forallb] in Hdefs. apply andb_prop in Hdefs as [Hd _]. destruct it; try discriminate Hd. cbn in Hy. discriminate Hy. }
+  { rewrite (run_fuel1 r pv kd t sp items s Hstmts Hstart Hdefs Hne) in Hgood. destruct Hgood. }
+  rewrite (run_items_eq (S (S f')) r pv kd t sp items s Hstmts Hstart) in *.
+  set (code := concat ([IExternal pv "print"] :: csg) ++ [ICall cg s []]).
+  assert (Hcodeq : code = IExternal pv "print" :: concat csg ++ [ICall cg s []]) by reflexivity.
   set (u := count_usages code).
   assert (Hucode : ucovers u code) by apply count_usages_covers.
   assert (Hug : ucovers u (concat csg)).
   { eapply ucovers_incl; [|exact Hucode]. intros x Hx. rewrite Hcodeq. right. apply in_or_app. left. exact Hx. }
-  assert (Hubc : ucovers u bc).
-  { eapply ucovers_incl; [|exact Hucode]. intros x Hx. rewrite Hcodeq. right. apply in_or_app. right. apply in_or_app. left.
-    right. apply in_or_app. left. exact Hx. }
-  (* the ranges of temporaries: the outer definitions in [bound, cg), the body of start in [cg + 1, cb) *)
-  destruct (L_items pv sv bound u (S f') k gs bound csg cg [] [] scg flg [] Hmg Hfg ltac:(intros; reflexivity) ltac:(lia))
+  destruct (L_items pv bound bound u (S f') k items bound csg cg [] [] scg flg [] Hmg Hfg ltac:(intros; reflexivity) ltac:(lia))
     as (_ & _ & (_ & Hbcg & _) & _).
-  assert (HLf : forall l0, exists b l', cshape u l0 bc b l' (cg + 1) cb)
-    by (intros l0; eapply (L_fbody pv sv bound u flg); eassumption).
-  destruct (HLf []) as (_ & _ & (_ & Hcgcb & _)).
-  set (prog := fun (bg b : block) => SAssign [EVar (fmt_var pv)] [EVar "print"] :: bg ++
-                 [SLocalFun (fmt_var sv) [] b; SLocal [fmt_var cb] [ECall (EVar (fmt_var sv)) []]]).
-  assert (Hemit : forall bg lg b l', cshape u [] (concat csg) bg lg bound cg -> cshape u lg bc b l' (cg + 1) cb ->
-            emit_ast code = prog bg b /\ nolabel (prog bg b)).
-  { intros bg lg b l' (Hemg & _ & Hfrg & Hnlg) (Hemb & _ & Hfrb & Hnlb).
-    assert (Hlgsv : alut_get lg sv = None) by (rewrite Hfrg by lia; reflexivity).
-    assert (Hl'cb : alut_get l' cb = None) by (rewrite Hfrb by lia; rewrite Hfrg by lia; reflexivity).
-    assert (Hl'sv : alut_get l' sv = None) by (rewrite Hfrb by lia; exact Hlgsv).
+  set (prog := fun (bg : block) => SAssign [EVar (fmt_var pv)] [EVar "print"] :: bg ++
+                 [SLocal [fmt_var cg] [ECall (EVar (fmt_var s)) []]]).
+  assert (Hemit : forall bg lg, cshape u [] (concat csg) bg lg bound cg -> s < bound ->
+            emit_ast code = prog bg /\ nolabel (prog bg)).
+  { intros bg lg (Hemg & _ & Hfrg & Hnlg) Hsb.
+    assert (Hlgs : alut_get lg s = None) by (rewrite Hfrg by lia; reflexivity).
+    assert (Hlgc : alut_get lg cg = None) by (rewrite Hfrg by lia; reflexivity).
     split.
-    - apply (emit_ast_Emits code (prog bg b) l'). fold u. rewrite Hcodeq. unfold prog.
-      apply (Em_op u [] (IExternal pv "print") _ _ l' eq_refl). cbn [agen_one snd].
+    - apply (emit_ast_Emits code (prog bg) lg). fold u. rewrite Hcodeq. unfold prog.
+      apply (Em_op u [] (IExternal pv "print") _ _ lg eq_refl). cbn [agen_one snd].
       eapply Emits_app; [exact Hemg|].
-      pose proof (Em_op u l' (ICall cb sv []) [] [] l' eq_refl (Em_nil u l')) as H.
-      cbn [agen_one fst snd map app] in H. unfold aname, aexpand in H. rewrite Hl'cb, Hl'sv in H.
-      pose proof (Em_fun u lg sv [] bc b l' [ICall cb sv []] _ l' Hemb H) as Hf.
-      unfold aname in Hf. rewrite Hlgsv in Hf. cbn [map] in Hf.
-      replace ((IFunction sv [] :: bc ++ [IEnd]) ++ [ICall cb sv []]) with (IFunction sv [] :: bc ++ [IEnd; ICall cb sv []])
-        by (cbn [app]; rewrite <- app_assoc; reflexivity).
-      exact Hf.
+      pose proof (Em_op u lg (ICall cg s []) [] [] lg eq_refl (Em_nil u lg)) as H.
+      cbn [agen_one fst snd map app] in H. unfold aname, aexpand in H. rewrite Hlgc, Hlgs in H. exact H.
     - unfold prog. constructor; [reflexivity|]. apply nolabel_app; [exact Hnlg | repeat constructor]. }
   (* the Lua run: V<pv> = print *)
   set (st1 := raw_set_in st0 globals_id (VStr (fmt_var pv)) (VBuiltin BPrint)).
@@ -702,7 +620,7 @@ Proof.
     - apply HnoV.
     - apply (g_nometa _ (li_genv _ Hlin0)). }
   assert (Hlin1 : linv st1) by (apply linv_set_global; exact Hlin0).
-  assert (Hrel0 : rel pv sv bound u [] world0 [] [(pv, 0%nat)] print_state PLeaf st1).
+  assert (Hrel0 : rel pv bound bound u [] world0 [] [(pv, 0%nat)] print_state PLeaf st1).
   { constructor.
     - intros v [].
     - intros v [].
@@ -719,21 +637,26 @@ Proof.
     - exact Hlin1.
     - constructor; cbn [world0 w_IS w_IL w_funs]; try (intros; contradiction).
       intros v p lv []. }
-  assert (Hctx0 : ctx_ok bound [] [] PLeaf bound cb).
+  assert (Hctx0 : ctx_ok bound [] [] PLeaf bound (cg + 1)).
   { constructor; [lia | intros t0 _; reflexivity | intros t0 [] | intros t0 _; apply pre_ncell_env]. }
   (* the outer definitions *)
-  destruct (SyltSem.run_outer (S (S f')) [(pv, 0%nat)] gs print_state) as [rg stg] eqn:Hrg.
+  destruct (SyltSem.run_outer (S (S f')) [(pv, 0%nat)] items print_state) as [rg stg] eqn:Hrg.
   assert (Hnag : match rg with SyltSem.RAbrupt _ => False | _ => True end).
   { destruct rg as [eg|o|cc]; [exact I | exact I | cbn in Hgood; destruct Hgood]. }
   assert (Hintg : interesting rg).
   { destruct rg as [eg|o|cc]; [exact I | | destruct Hnag]. cbn in Hgood. destruct o; try destruct Hgood; try exact I.
     exfalso. eapply run_outer_not_done. exact Hrg. }
-  destruct (items_sim pv sv bound u f' k gs bound csg cg cb _ _ rg stg [] scg [] flg world0 [] PLeaf st1 []
+  destruct (items_sim pv bound bound u f' k items bound csg cg (cg + 1) _ _ rg stg [] scg [] flg world0 [] PLeaf st1 []
               Hrg Hmg Hfg Hug ltac:(lia) Hctx0 Hrel0 ltac:(intros d []) Hnag Hintg) as (bg & lg & Hsg & Hpostg).
+  assert (Hsb0 : forall W' E' stL' e' st', rel pv bound bound u flg W' scg e' st' E' stL' -> s < bound).
+  { intros W' E' stL' e' st' Hr. pose proof (r_world _ _ _ _ _ _ _ _ _ _ _ Hr) as HW.
+    destruct (wi_cover _ _ _ _ _ _ _ _ _ _ _ HW s O Hars) as (d & Hd & <- & _).
+    destruct (wi_fun _ _ _ _ _ _ _ _ _ _ _ HW d Hd) as (Hst & _). apply (fs_var _ _ _ _ _ Hst). }
   destruct rg as [eg|o|cc]; [| |destruct Hnag].
   2: { (* an outer definition fails *)
        destruct Hpostg as (ev & stL' & Hxg & Htr).
-       destruct (HLf lg) as (b & l' & Hsb). destruct (Hemit bg lg b l' Hsg Hsb) as (Hcode & Hnlp).
+       assert (Hsb : s < bound) by (eapply (frag_items_bound pv bound bound k items [] [] scg flg Hfg); [intros f ar [] | exact Hars]).
+       destruct (Hemit bg lg Hsg Hsb) as (Hcode & Hnlp).
        unfold lua_result. fold code. rewrite Hcode.
        exists (RErr ev stL'), stL'. splits.
        - apply ExecBlock_of_ExecS; [|exact Hnlp | intros []].
@@ -743,99 +666,56 @@ Proof.
        - cbn [SyltSem.r_final]. cbn in Hgood. destruct o; try destruct Hgood; eauto.
          exfalso. eapply run_outer_not_done. exact Hrg. }
   destruct Hpostg as (Wg & Eg & stLg & Fg & Hxg & Hrelg & Hctxg & Hallg).
-  destruct (frag_items_fresh pv sv bound k gs [] [] scg flg Hfg) as [Hscsv Hflsv].
-  assert (Hsvg : ~ In sv scg) by (intros Hin; destruct (Hscsv sv Hin) as [[]|H]; apply H; reflexivity).
-  assert (Hsvf : ~ In sv (fnames flg)) by (intros Hin; destruct (Hflsv sv Hin) as [[]|H]; apply H; reflexivity).
-  (* local function V<sv> *)
-  set (b0 := estack u lg [] [] bc).
-  set (csv := s_ncell stLg).
-  set (E1 := sset (fmt_var sv) csv Eg).
-  set (fid := s_nclo stLg).
-  set (st2 := lua_def_state stLg E1 [] b0).
-  assert (Hx2 : Exec Eg (SLocalFun (fmt_var sv) [] b0) stLg (ROk (E1, SigNormal) st2)) by apply Exec_localfun.
-  assert (Hclo : pget fid (s_clos st2) = Some (mkClosure E1 [] b0)).
-  { unfold st2, lua_def_state, set_cell, alloc_closure, alloc_cell. cbn [snd s_clos s_nclo map]. apply pget_pset_same. }
-  assert (Hcell : get_cell st2 csv = VFun fid) by (unfold st2, lua_def_state; apply get_cell_set_same).
-  assert (Hrel2 : rel pv sv bound u flg Wg scg (start_env sv eg stg) (start_state sv body eg stg) E1 st2).
-  { apply (rel_define_start pv sv bound u flg Wg scg eg stg Eg stLg [] body b0 Hrelg Hsvg); [intros Heq; apply Hne; symmetry; exact Heq | exact Hsvb | exact Hsvf]. }
-  assert (HE1sv : sget (fmt_var sv) E1 = Some csv) by apply sget_sset_same.
-  assert (Hctx2 : ctx_ok bound lg Fg E1 (cg + 1) cb).
-  { destruct Hctxg as [Hb Hl HF HE]. constructor; [lia | eapply lut_ok_sub; [exact Hl | lia | lia] | eapply F_out_sub; [exact HF | lia | lia] |].
-    intros t0 Ht. unfold E1. rewrite sget_sset_var by lia. apply HE. lia. }
-  destruct (SyltSem.block_value (S f') (start_env sv eg stg) body (start_state sv body eg stg)) as [rb stb] eqn:Hbv.
-  assert (Hna : match rb with SyltSem.RAbrupt SyltSem.CBreak | SyltSem.RAbrupt SyltSem.CContinue => False | _ => True end).
-  { destruct rb as [v|o|[| |v]]; try exact I.
-    - cbn in Hgood. destruct Hgood.
-    - cbn in Hgood. destruct Hgood. }
-  assert (Hint : interesting rb).
-  { destruct rb as [v|o|[| |v]]; [exact I | | destruct Hna | destruct Hna | exact I]. cbn in Hgood. destruct o; try destruct Hgood; try exact I.
-    exfalso. eapply SemSane.block_value_not_done. exact Hbv. }
-  destruct (proj1 (proj2 (proj2 (proj2 (proj2 (P_all pv sv bound u (S f') flg Wg))))) (S f') k body 0 (cg + 1) bc cb _ _ rb stb scg sc' lg E1 st2 Fg
-              Hbv Hbody Hfb Hubc Hctx2 Hrel2 Hint) as (b1 & l1 & Hs1 & Hpost).
-  assert (Hb01 : b1 = b0) by (unfold b0; apply (Emits_block_fun u lg bc b1 l1); apply Hs1).
-  subst b1. pose proof Hs1 as (_ & _ & _ & Hnl0).
-  destruct (Hemit bg lg b0 l1 Hsg Hs1) as (Hcode & Hnlp).
+  pose proof (Hsb0 _ _ _ _ _ Hrelg) as Hsb.
+  destruct (Hemit bg lg Hsg Hsb) as (Hcode & Hnlp).
   unfold lua_result. fold code. rewrite Hcode.
-  assert (Hev_sv : Eval E1 (EVar (fmt_var sv)) st2 (ROk (VFun fid) st2)).
-  { rewrite <- Hcell. apply Eval_local. exact HE1sv. }
-  assert (Hdone : forall stL' vs, Call (VFun fid) [] st2 (ROk vs stL') -> SyltSem.trace stb = s_out stL' ->
-            exists r0 st, ExecBlock PLeaf [] (prog bg b0) st0 r0 /\ res_state_of r0 = st /\
-              rev (s_out st) = rev (SyltSem.trace stb) /\ exists E, r0 = ROk (E, SigNormal) st).
-  { intros stL' vs Hcall Htr.
-    pose proof (Exec_local E1 [fmt_var cb] [ECall (EVar (fmt_var sv)) []] st2 vs stL'
-                  (EvalList_one _ _ _ _ (EvalMulti_call _ _ _ _ _ (EvalCall_intro _ _ _ _ _ _ _ _ _ Hev_sv (EvalList_nil E1 st2) Hcall)))) as Hx3.
-    set (Ef := fst (bind_locals E1 [fmt_var cb] vs stL')) in *. set (stf := snd (bind_locals E1 [fmt_var cb] vs stL')) in *.
+  (* the call of start *)
+  pose proof (r_world _ _ _ _ _ _ _ _ _ _ _ Hrelg) as HW.
+  destruct (wi_cover _ _ _ _ _ _ _ _ _ _ _ HW s O Hars) as (d & Hd & Hds & Hdp).
+  assert (Hvis : In (fd_var d) (fnames flg)) by (rewrite Hds; unfold fnames; change s with (fst (s, O)); apply in_map; exact Hars).
+  destruct (wi_visS _ _ _ _ _ _ _ _ _ _ _ HW d Hd Hvis) as [Hlks _].
+  destruct (wi_visL _ _ _ _ _ _ _ _ _ _ _ HW d Hd Hvis) as [HlkL _].
+  destruct (wi_fun _ _ _ _ _ _ _ _ _ _ _ HW d Hd) as (Hst & HIS & HIL).
+  pose proof (wi_IS _ _ _ _ _ _ _ _ _ _ _ HW _ _ HIS) as Hnth.
+  destruct (wi_IL _ _ _ _ _ _ _ _ _ _ _ HW _ _ HIL) as [Hcell _].
+  rewrite Hds in Hlks, HlkL.
+  assert (Hbind : SyltSem.bind (SyltSem.read_cell (fd_cf d)) (fun fv => SyltSem.apply (S (S f')) fv []) stg =
+                  SyltSem.apply (S (S f')) (SyltSem.SClos (fd_ci d)) [] stg)
+    by (unfold SyltSem.bind, SyltSem.read_cell; rewrite Hnth; reflexivity).
+  rewrite Hlks, Hbind in Hgood |- *.
+  destruct (SyltSem.apply (S (S f')) (SyltSem.SClos (fd_ci d)) [] stg) as [ra sta] eqn:Hap.
+  assert (Hinta : interesting ra).
+  { destruct ra as [v|o|cc]; [exact I | | destruct cc; exact I]. cbn in Hgood. destruct o; try destruct Hgood; try exact I.
+    exfalso. pose proof (SemSane.s_apply _ (SemSane.sane_all (S (S f'))) (SyltSem.SClos (fd_ci d)) [] stg) as Hq. rewrite Hap in Hq. exact Hq. }
+  pose proof (proj2 (proj2 (proj2 (proj2 (proj2 (P_all pv bound bound u (S (S f')) flg Wg))))) d [] [] scg eg stg Eg stLg ra sta
+                    Hrelg Hd Hvis (Forall2_nil _) Hap Hinta) as Hcall.
+  assert (Hev_s : Eval Eg (EVar (fmt_var s)) stLg (ROk (VFun (fd_fid d)) stLg)).
+  { rewrite <- Hcell. apply Eval_local. exact HlkL. }
+  destruct ra as [v|o|cc]; [| |destruct Hcall].
+  - cbv beta iota. cbn [SyltSem.r_final SyltSem.r_trace].
+    destruct Hcall as (vs & stL' & Hc & _ & Hrelf & _).
+    pose proof (r_trace _ _ _ _ _ _ _ _ _ _ _ Hrelf) as Htr.
+    pose proof (Exec_local Eg [fmt_var cg] [ECall (EVar (fmt_var s)) []] stLg vs stL'
+                  (EvalList_one _ _ _ _ (EvalMulti_call _ _ _ _ _ (EvalCall_intro _ _ _ _ _ _ _ _ _ Hev_s (EvalList_nil Eg stLg) Hc)))) as Hx3.
+    set (Ef := fst (bind_locals Eg [fmt_var cg] vs stL')) in *. set (stf := snd (bind_locals Eg [fmt_var cg] vs stL')) in *.
     exists (ROk (Ef, SigNormal) stf), stf. splits.
     + apply ExecBlock_of_ExecS; [|exact Hnlp | intros []].
-      unfold prog. eapply XS_cons; [exact Hx1|]. eapply ExecS_app; [exact Hxg|].
-      eapply XS_cons; [exact Hx2|]. eapply XS_cons; [exact Hx3 | apply XS_nil].
+      unfold prog. eapply XS_cons; [exact Hx1|]. eapply ExecS_app; [exact Hxg|]. eapply XS_cons; [exact Hx3 | apply XS_nil].
     + reflexivity.
     + unfold stf. rewrite bind_locals_one. cbn [snd alloc_cell s_out]. rewrite <- Htr. reflexivity.
-    + eauto. }
-  destruct rb as [v|o|[| |v]]; [| |destruct Hna|destruct Hna|].
-  3: { (* start returns early *)
-    destruct Hpost as (E' & stL' & lv & Hxb & _ & Hrelb & _).
-    pose proof (r_trace _ _ _ _ _ _ _ _ _ _ _ Hrelb) as Htr.
-    destruct (Hdone stL' [lv]) as (r0 & st & A & B & C & D); [|exact Htr|].
-    - eapply (Call_closure fid (mkClosure E1 [] b0)); [exact Hclo | reflexivity |].
-      cbn [c_body]. apply ExecBlock_of_ExecS; [exact Hxb | exact Hnl0 | intros []].
-    - exists r0, st. splits; assumption. }
-  - (* start returns *)
-    destruct Hpost as (E' & sg & stL' & sc2 & e2 & Hxb & Hsg' & Hrelb & _).
-    pose proof (r_trace _ _ _ _ _ _ _ _ _ _ _ Hrelb) as Htr.
-    assert (Hcall : exists vs, Call (VFun fid) [] st2 (ROk vs stL')).
-    { destruct Hsg' as [[-> _]|(lv & -> & _)].
-      - exists []. eapply (Call_closure_normal fid (mkClosure E1 [] b0)); [exact Hclo | reflexivity |].
-        cbn [c_body]. apply ExecBlock_of_ExecS; [exact Hxb | exact Hnl0 | intros []].
-      - exists [lv]. eapply (Call_closure fid (mkClosure E1 [] b0)); [exact Hclo | reflexivity |].
-        cbn [c_body]. apply ExecBlock_of_ExecS; [exact Hxb | exact Hnl0 | intros []]. }
-    destruct Hcall as [vs Hcall].
-    pose proof (Exec_local E1 [fmt_var cb] [ECall (EVar (fmt_var sv)) []] st2 vs stL'
-                  (EvalList_one _ _ _ _ (EvalMulti_call _ _ _ _ _ (EvalCall_intro _ _ _ _ _ _ _ _ _ Hev_sv (EvalList_nil E1 st2) Hcall)))) as Hx3.
-    set (Ef := fst (bind_locals E1 [fmt_var cb] vs stL')) in *. set (stf := snd (bind_locals E1 [fmt_var cb] vs stL')) in *.
-    exists (ROk (Ef, SigNormal) stf), stf. splits.
-    + apply ExecBlock_of_ExecS; [|exact Hnlp | intros []].
-      unfold prog. eapply XS_cons; [exact Hx1|]. eapply ExecS_app; [exact Hxg|].
-      eapply XS_cons; [exact Hx2|]. eapply XS_cons; [exact Hx3 | apply XS_nil].
-    + reflexivity.
-    + cbn [SyltSem.r_trace]. unfold stf. rewrite bind_locals_one. cbn [snd alloc_cell s_out]. rewrite <- Htr. reflexivity.
-    + cbn [SyltSem.r_final]. eauto.
-  - (* a failed assertion *)
-    destruct Hpost as (ev & stL' & Hxb & Htr).
-    assert (Hcall : Call (VFun fid) [] st2 (RErr ev stL')).
-    { eapply (Call_closure_err fid (mkClosure E1 [] b0)); [exact Hclo | reflexivity |].
-      cbn [c_body]. apply ExecBlock_of_ExecS; [exact Hxb | exact Hnl0 | intros []]. }
-    assert (Hx3 : Exec E1 (SLocal [fmt_var cb] [ECall (EVar (fmt_var sv)) []]) st2 (RErr ev stL')).
+    + eauto.
+  - cbv beta iota. cbn [SyltSem.r_final SyltSem.r_trace]. cbv beta iota in Hgood. cbn [SyltSem.r_final] in Hgood.
+    destruct Hcall as (ev & stL' & Hc & Htr).
+    assert (Hx3 : Exec Eg (SLocal [fmt_var cg] [ECall (EVar (fmt_var s)) []]) stLg (RErr ev stL')).
     { apply Exec_local_err. apply EvalList_one. apply EvalMulti_call.
-      eapply EvalCall_intro; [exact Hev_sv | apply EvalList_nil | exact Hcall]. }
+      eapply EvalCall_intro; [exact Hev_s | apply EvalList_nil | exact Hc]. }
     exists (RErr ev stL'), stL'. splits.
     + apply ExecBlock_of_ExecS; [|exact Hnlp | intros []].
-      unfold prog. eapply XS_cons; [exact Hx1|]. eapply ExecS_app; [exact Hxg|].
-      eapply XS_cons; [exact Hx2|]. apply XS_stop; [exact Hx3 | intros []].
+      unfold prog. eapply XS_cons; [exact Hx1|]. eapply ExecS_app; [exact Hxg|]. apply XS_stop; [exact Hx3 | intros []].
     + reflexivity.
-    + cbn [SyltSem.r_trace]. rewrite <- Htr. reflexivity.
-    + cbn [SyltSem.r_final]. cbn in Hgood. destruct o; try destruct Hgood; eauto.
-      exfalso. eapply SemSane.block_value_not_done. exact Hbv.
+    + rewrite <- Htr. reflexivity.
+    + destruct o; try destruct Hgood; eauto.
+      exfalso. pose proof (SemSane.s_apply _ (SemSane.sane_all (S (S f'))) (SyltSem.SClos (fd_ci d)) [] stg) as Hq. rewrite Hap in Hq. exact Hq.
 Qed.
 
 Theorem fragment_preservation k r code n res :
